@@ -194,8 +194,17 @@ func makeDoc(r *hk.Rand, s site, cs *charsetSpec, target int) (*doc, bool) {
 		if strings.HasSuffix(d.CT, `="`+cs.Name) {
 			d.CT += `"`
 		}
-		if r.Chance(30) {
+		switch r.Intn(10) {
+		case 0, 1:
 			d.CT = base + "; charset=" + strings.ToUpper(cs.Name)
+		case 2:
+			d.CT = base + "; charset=" + cs.Name + "; q=0.9"
+		case 3:
+			d.CT = base + ";charset=" + cs.Name + ";"
+		case 4:
+			d.CT = base + "; CHARSET=" + cs.Name
+		case 5:
+			d.CT = base + "; boundary=x; charset=" + cs.Name
 		}
 		head = "<html><head><title>t</title></head><body>"
 	case siteMeta, siteHTTPEquiv:
@@ -306,6 +315,9 @@ func randomSplit(r *hk.Rand, body []byte, k int) [][]byte {
 
 var callerBufs = []int{1, 2, 3, 7, 512, 4096}
 
-var sizePatterns = [][]int{{1}, {2}, {3}, {7}, {512}, {4096}, {512, 1, 3}, {7, 4096}, {2, 511}, {513}, {1024}, {3, 512, 4096}}
+// beyond x/text's 4096-byte internal buffers (only used where the body is long enough to matter)
+var bigBufs = []int{8192, 16384}
+
+var sizePatterns = [][]int{{1}, {2}, {3}, {7}, {512}, {4096}, {512, 1, 3}, {7, 4096}, {2, 511}, {513}, {1024}, {3, 512, 4096}, {8192}, {16384, 512}}
 
 var bodyTargets = []int{0, 1, 2, 3, 25, 60, 120, 300, 509, 510, 511, 512, 513, 514, 600, 1023, 1024, 1025, 1500, 4095, 4096, 4097, 6000, 9000}
